@@ -15,7 +15,7 @@ def module_name(pid, g, N, p):
 
 
 def run(c, pid, groups, parts, spec, spec_files, prop_files_quick, prop_files_thorough, conditional=None,
-        source="trace.cxx", nsamples=(6, 60), workers=8, extra_support=()):
+        source="trace.cxx", nsamples=(6, 60), workers=6, extra_support=()):
     """conditional: {op_name: (positive_properties_file, refuted_properties_file_or_None)} for operations hit by a
     known finding: the positive file is compiled only when no numerical failure of that operation is observed."""
     tier = 0 if c.quick() else 1
